@@ -945,6 +945,6 @@ func RSentinelArg(c *core.Ctx) {
 
 // parameters whose comparison with 0 is deliberate, each with the reason
 var sentinelArgExempt = map[string]string{
-	"regexp2.(*Regexp).matchStringAt.startAt":        "explicit positions reach it only from the left-to-right raw-string filter (R-RTLFILTER checks that call is under !RightToLeft()); for a left-to-right search position 0 and 'unspecified' are the same start",
+	"regexp2.(*Regexp).matchStringAt.startAt":         "explicit positions reach it only from the left-to-right raw-string filter (R-RTLFILTER checks that call is under !RightToLeft()); for a left-to-right search position 0 and 'unspecified' are the same start",
 	"regexp2.(*pooledSliceBuffers).poolIndex.maxSize": "0 ('pooling disabled') is answered by the `maxSize == 0` return before this test; `maxSize > 0` then separates a real limit from -1 (unlimited)",
 }
